@@ -235,6 +235,8 @@ class C07Rules(FoldRules):
         for gl in alts:
             kinds = []
             for (c, o) in gl:
+                if isinstance(c, ast.Compare) and isinstance(c.left, ast.Name) and norm(c).endswith(" is None") and self._hoisted(fn, c.left) is not c.left:
+                    continue  # `if x is None: x = <look-up>`: the lazy binding of a hoisted operand, not a filter
                 k = self._classify_guard(c, o, F, thecit, fn, pv)
                 if k is None:
                     unknown.append(f"{norm(c)[:50]}={o}")
@@ -277,10 +279,13 @@ class C07Rules(FoldRules):
                     continue
                 F, R = loop.target.elts[0].id, loop.target.elts[1].id
                 paths = enumerate_paths(loop.body)
+                # a collection that is (re)created inside the scan body is scratch space of one iteration (e.g. the set of this pair's
+                # names), not the candidate list
+                scratch = {x for st_ in stmts_local(loop.body) if isinstance(st_, (ast.Assign, ast.AnnAssign)) for x in assigned_names(st_)}
                 appends = [
                     n for n in walk_local(loop)
                     if isinstance(n, ast.Call) and isinstance(n.func, ast.Attribute) and n.func.attr in ("append", "add")
-                    and isinstance(n.func.value, ast.Name) and n.args
+                    and isinstance(n.func.value, ast.Name) and n.args and n.func.value.id not in scratch
                 ]
                 for app in appends:
                     st = stmt_of(app)
@@ -290,16 +295,33 @@ class C07Rules(FoldRules):
                     for p_ in paths:
                         idx_ = next((i_ for i_, e_ in enumerate(p_.events) if e_[0] == "stmt" and (e_[1] is st or getattr(e_[1], "_orig", None) is st)), None)
                         if idx_ is not None:
-                            alts.append([(e_[1], e_[2]) for e_ in p_.events[:idx_] if e_[0] == "cond"])
+                            def _in_other_inner_loop(node_):
+                                cur_ = getattr(node_, "parent", None)
+                                while cur_ is not None and cur_ is not loop:
+                                    if isinstance(cur_, (ast.For, ast.While)) and not any(x_ is st for x_ in ast.walk(cur_)):
+                                        return True
+                                    cur_ = getattr(cur_, "parent", None)
+                                return False
+                            # conditions inside an inner loop that finished before the addition (building this pair's scratch data) do not
+                            # decide whether the addition happens
+                            alts.append([(e_[1], e_[2]) for e_ in p_.events[:idx_] if e_[0] == "cond" and not _in_other_inner_loop(e_[1])])
                     self._check_addition(name, fn, pv, thecit, app, app.args[0], F, R, guards, alts)
                 # completeness: no `continue`/`break` other than on a failed isinstance
                 for p in paths:
                     if p.exit in ("continue", "break", "return"):
                         conds = [(norm(ev[1]), ev[2]) for ev in p.events if ev[0] == "cond"]
                         cev = [ev for ev in p.events if ev[0] == "cond"]
-                        ok = p.exit == "continue" and len(conds) >= 1 and not conds[-1][1] and all(
-                            isinstance_test(ev[1]) is not None or self._classify_guard(ev[1], True, F, thecit, fn, pv) is not None for ev in cev) \
-                            and all(ev[2] for ev in cev[:-1])
+                        # a pair may be skipped only because a matching predicate (or the isinstance test) does not hold for it: the last
+                        # condition, read as what would have had to hold to go on, and the earlier ones as they came out, are all of that kind
+                        def _pred(ev_, needed):
+                            it_ = isinstance_test(ev_[1])
+                            if it_ is not None:
+                                return True
+                            return self._classify_guard(ev_[1], needed, F, thecit, fn, pv) is not None
+                        lazy_init = lambda ev_: isinstance(ev_[1], ast.Compare) and norm(ev_[1]).endswith(" is None") and isinstance(ev_[1].left, ast.Name) \
+                            and self._hoisted(fn, ev_[1].left) is not ev_[1].left  # noqa: E731
+                        cev_ = [ev_ for ev_ in cev if not lazy_init(ev_)]
+                        ok = p.exit == "continue" and len(cev_) >= 1 and _pred(cev_[-1], not cev_[-1][2]) and all(_pred(ev_, ev_[2]) for ev_ in cev_[:-1])
                         ctx.ob("R-C07-2", f"resolve.{name}/scan-exit", ok,
                                f"the candidate scan may skip a pair only because it is not a FullCaseCitation; path conditions {conds[:4]} -> {p.exit}",
                                node=p.exit_node, mod=self.m)
@@ -331,6 +353,28 @@ class C07Rules(FoldRules):
         ctx.extra["candidate_additions"] = n_app
         ctx.need(n_app >= 3, f"expected >=3 candidate additions (one per name/reporter scan), found {n_app}")
 
+    def r2b_shortform_selects_among_candidates(self):
+        """R-C07-2b: a short-form citation may only be resolved to a case with the same normalised reporter and volume.  In the short-form
+        resolver every selection helper (a function that picks a resource out of a list of pairs) must be handed the list that passed the
+        reporter+volume predicates, never the complete list of earlier full citations (that is what the supra resolver does, rightly)."""
+        ctx = self.ctx
+        sp = self._param_for("ShortCaseCitation")
+        fn = self.default_resolver_funcs().get(sp) if sp else None
+        if fn is None:
+            ctx.ob("R-C07-2", "resolve/short-form-resolver:located", False, "short-form resolver not found in the fold", node=self.r.FOLD, mod=self.m)
+            return
+        helpers = self.helper_set()
+        roles = helpers.get(fn.name, (fn, {}))[1]
+        pairs_params = [p_ for p_, v_ in roles.items() if v_ == PAIRS]
+        n = 0
+        for c in [x for x in walk_local(fn) if isinstance(x, ast.Call) and isinstance(x.func, ast.Name) and self.repo.func(f"resolve.{x.func.id}") is not None]:
+            raw = [a for a in c.args if isinstance(a, ast.Name) and a.id in pairs_params]
+            n += 1
+            ctx.ob("R-C07-2", f"resolve.{fn.name}/selection-over-candidates:{c.func.id}", not raw,
+                   f"`{norm(c)[:70]}` picks a resource for a short-form citation: it must choose among the pairs that matched reporter and volume, not among all "
+                   f"earlier full citations (`{raw[0].id if raw else ''}` is the complete list)", node=c, mod=self.m)
+        ctx.extra["shortform_selection_calls"] = n
+
     def _param_for(self, cls: str) -> str:
         """resolver parameter called under isinstance(CIT, cls) in the fold."""
         r = self.r
@@ -343,7 +387,45 @@ class C07Rules(FoldRules):
                             return s.value.func.id
         return ""
 
+    @staticmethod
+    def _hoisted(fn, e: ast.AST) -> ast.AST:
+        """operand of a matching predicate with hoisted look-ups put back: a local bound once to an expression (`short_volume =
+        short.groups.get('volume')`), or lazily (`x = None` ... `if x is None: x = E` right before the use), stands for that expression"""
+        from ..core import acopy
+
+        if not isinstance(e, ast.Name):
+            return e
+        binds = [s_ for s_ in stmts_local(fn.body) if isinstance(s_, (ast.Assign, ast.AnnAssign)) and s_.value is not None and e.id in assigned_names(s_)]
+        params = {a.arg for a in fn.args.args + fn.args.kwonlyargs}
+        if e.id in params:
+            return e
+        real = [b for b in binds if not (isinstance(b.value, ast.Constant) and b.value.value is None)]
+        if len(real) != 1 or any(not isinstance(b, (ast.Assign, ast.AnnAssign)) for b in binds):
+            return e
+        b = real[0]
+        if len(binds) == 2:
+            # the lazy form: the real binding sits directly under `if <name> is None:`
+            par = getattr(b, "parent", None)
+            if not (isinstance(par, ast.If) and norm(par.test) == f"{e.id} is None" and not par.orelse and len(par.body) == 1):
+                return e
+        elif len(binds) != 1:
+            return e
+        # the expression may only depend on parameters (it is evaluated once, outside the scan or at its first use)
+        if not all(n_ in params for n_ in names_in(b.value) if n_ not in ("None", "True", "False")):
+            return e
+        return acopy(b.value)
+
     def _classify_guard(self, c: ast.AST, outcome: bool, F: str, thecit: List[str], fn, pv) -> Optional[str]:
+        # `a != b` not holding is `a == b` holding; `not x` likewise
+        if isinstance(c, ast.UnaryOp) and isinstance(c.op, ast.Not):
+            return self._classify_guard(c.operand, not outcome, F, thecit, fn, pv)
+        if isinstance(c, ast.Compare) and len(c.ops) == 1 and isinstance(c.ops[0], ast.NotEq):
+            eq = ast.copy_location(ast.Compare(left=c.left, ops=[ast.Eq()], comparators=list(c.comparators)), c)
+            return self._classify_guard(eq, not outcome, F, thecit, fn, pv)
+        if isinstance(c, ast.Compare) and len(c.ops) == 1 and isinstance(c.ops[0], ast.Eq):
+            l2, r2 = self._hoisted(fn, c.left), self._hoisted(fn, c.comparators[0])
+            if l2 is not c.left or r2 is not c.comparators[0]:
+                c = ast.copy_location(ast.Compare(left=l2, ops=[ast.Eq()], comparators=[r2]), c)
         if isinstance(c, ast.Name):
             # a named boolean local: `same_volume = a.groups.get("volume") == b.groups.get("volume")`
             e = Locals(fn).expand(c, c, depth=1)
@@ -650,6 +732,7 @@ def run(ctx: Ctx):
     ctx.guard(R.o3_resolver_provenance)
     ctx.guard(R.r1_uniqueness_guard)
     ctx.guard(R.r2_candidate_predicates)
+    ctx.guard(R.r2b_shortform_selects_among_candidates)
     ctx.guard(R.r4_id_discipline)
     ctx.guard(R.dynamic_features_absent)
     ctx.floor("R-C07-1", 3)
